@@ -156,6 +156,33 @@ func posImplFs(ops string) string {
 	return strings.Join(rs, ";") + "#" + st.dump()
 }
 
+// posImplFp: getFrameSourcePos / getSourcePos through the verif hook
+func posImplFp(sm, ips string) (string, error) {
+	m := map[int]int{}
+	if sm != "" {
+		for _, kv := range strings.Split(sm, ",") {
+			p := strings.Split(kv, ":")
+			if len(p) != 2 {
+				return "", fmt.Errorf("bad source map")
+			}
+			k, _ := strconv.Atoi(p[0])
+			v, _ := strconv.Atoi(p[1])
+			m[k] = v
+		}
+	}
+	is, err := parseInts(ips)
+	if err != nil {
+		return "", err
+	}
+	fr := make([]int, len(is))
+	cu := make([]int, len(is))
+	for i, ip := range is {
+		fr[i] = int(ugo.VerifFrameSourcePos(m, ip))
+		cu[i] = int(ugo.VerifCurSourcePos(m, ip))
+	}
+	return showInts(fr) + "#" + showInts(cu), nil
+}
+
 func posImplSp(sm, ips string) (string, error) {
 	m := map[int]int{}
 	if sm != "" {
@@ -256,6 +283,8 @@ func posReplay(line string) (string, error) {
 		return posImplFs(f[2]), nil
 	case f[1] == "sp" && len(f) == 4:
 		return posImplSp(f[2], f[3])
+	case f[1] == "fp" && len(f) == 4:
+		return posImplFp(f[2], f[3])
 	case f[1] == "scan" && len(f) == 3:
 		return posImplScan(f[2])
 	case f[1] == "tr" && len(f) == 4:
@@ -1037,7 +1066,7 @@ func init() {
 				}
 				c.Add(Case{Line: line, Impl: impl, Key: key})
 			}
-			n := 700 * c.Scale
+			n := 3000 * c.Scale
 			for i := 0; i < n; i++ {
 				ops := genFsOps(r)
 				add("pos\tfs\t"+ops, fmt.Sprintf("fs%d", i%97))
@@ -1046,6 +1075,7 @@ func init() {
 			for i := 0; i < n; i++ {
 				sm, ips := genSp(r)
 				add("pos\tsp\t"+sm+"\t"+ips, fmt.Sprintf("sp%d", i%53))
+				add("pos\tfp\t"+sm+"\t"+ips, fmt.Sprintf("fp%d", i%53))
 				c.Count("sp")
 			}
 			for i := 0; i < n; i++ {
@@ -1071,7 +1101,7 @@ func init() {
 			if c.Scale > 1 {
 				maxDepth = 8
 			}
-			np := 250 * c.Scale
+			np := 1200 * c.Scale
 			shapes := map[string]bool{}
 			for i := 0; i < np; i++ {
 				g := &pGen{r: r.Fork(), shape: map[string]bool{}}
